@@ -34,6 +34,10 @@ Lemma upd_n_same {A} (m : N -> A) k v : upd_n m k v k = v.
 Proof. unfold upd_n. now rewrite N.eqb_refl. Qed.
 Lemma upd_n_other {A} (m : N -> A) k v x : x <> k -> upd_n m k v x = m x.
 Proof. unfold upd_n. intros H. apply N.eqb_neq in H. now rewrite H. Qed.
+Lemma upd_z_same {A} (m : Z -> A) k v : upd_z m k v k = v.
+Proof. unfold upd_z. now rewrite Z.eqb_refl. Qed.
+Lemma upd_z_other {A} (m : Z -> A) k v x : x <> k -> upd_z m k v x = m x.
+Proof. unfold upd_z. intros H. apply Z.eqb_neq in H. now rewrite H. Qed.
 
 Lemma holder_in n l i : holder n l = Some i -> exists c, In (EvClaim n i c) l.
 Proof.
@@ -106,13 +110,14 @@ Definition ShInv (s : shared) : Prop :=
   (forall i, next s < i -> own s i = None) /\
   (forall i r, recs s i = Some r ->
      In (EvClaim (r_name r) i (r_client r)) (log s) /\ In (EvWrite i (r_client r) (r_target r)) (log s)) /\
-  cttl s = false.                      (* the counter key never carries a deadline: it cannot vanish *)
+  cttl s = false /\                   (* the counter key never carries a deadline: it cannot vanish *)
+  (forall n i c, In (EvClaim n i c) (log s) -> (0 < c)%Z).   (* only real client ids (> 0) ever claim a name *)
 
 Definition pre (a : act) (s : shared) : Prop :=
   match a with
   | ASetNext _ _ _ => False
   | AIncr _ _ => cexists s = true
-  | AClaim n i c => idx s n = None /\ own s i = Some (c, n)
+  | AClaim n i c => idx s n = None /\ own s i = Some (c, n) /\ (0 < c)%Z
   | AWrite i r => In (EvClaim (r_name r) i (r_client r)) (log s)
   | AUnidx n i c => idx s n = Some i /\ In (EvClaim n i c) (log s)
   | _ => True
@@ -138,50 +143,61 @@ Qed.
 
 Lemma cexists_mono a s : ShInv s -> cexists s = true -> cexists (exec a s) = true.
 Proof.
-  intros (_ & _ & _ & _ & _ & Httl) He. destruct a; cbn; auto.
+  intros (_ & _ & _ & _ & _ & Httl & _) He. destruct a; cbn; auto.
   - rewrite Httl, andb_false_r. exact He.
   - rewrite He. exact He.
 Qed.
 
 Lemma sh_step a s : ShInv s -> pre a s -> ShInv (exec a s).
 Proof.
-  intros (Hidx & Hok & Hown & Hfresh & Hrec & Httl) Hp.
-  destruct a; cbn in Hp; try contradiction; unfold ShInv; cbn [exec next cexists cttl idx recs lists rguard own log];
-    try (split; [exact Hidx|split; [exact Hok|split; [exact Hown|split; [exact Hfresh|split; [exact Hrec|exact Httl]]]]]).
+  intros (Hidx & Hok & Hown & Hfresh & Hrec & Httl & Hpos) Hp.
+  destruct a; cbn in Hp; try contradiction; unfold ShInv; cbn [exec next cexists cttl glist idx recs lists rguard own log];
+    try (split; [exact Hidx|split; [exact Hok|split; [exact Hown|split; [exact Hfresh|split; [exact Hrec|split; [exact Httl|exact Hpos]]]]]]).
   - (* AIncr *)
-    split; [exact Hidx|split; [exact Hok|split; [|split; [|split; [exact Hrec|rewrite Hp; exact Httl]]]]].
+    split; [exact Hidx|split; [exact Hok|split; [|split; [|split; [exact Hrec|split; [rewrite Hp; exact Httl|exact Hpos]]]]]].
     + intros n0 i c0 Hin. rewrite upd_n_other; [now apply Hown|].
       intros ->. apply Hown in Hin. rewrite Hfresh in Hin by lia. discriminate.
     + intros i Hi. rewrite upd_n_other by lia. apply Hfresh. lia.
   - (* AReset: the key has no deadline, nothing happens *)
-    rewrite Httl, andb_false_r. split; [exact Hidx|split; [exact Hok|split; [exact Hown|split; [exact Hfresh|split; [exact Hrec|exact Httl]]]]].
+    rewrite Httl, andb_false_r.
+    split; [exact Hidx|split; [exact Hok|split; [exact Hown|split; [exact Hfresh|split; [exact Hrec|split; [exact Httl|exact Hpos]]]]]].
   - (* AEnsure *)
-    destruct (cexists s); cbn; (split; [exact Hidx|split; [exact Hok|split; [exact Hown|split; [exact Hfresh|split; [exact Hrec|auto]]]]]).
+    destruct (cexists s); cbn;
+      (split; [exact Hidx|split; [exact Hok|split; [exact Hown|split; [exact Hfresh|split; [exact Hrec|split; [auto|exact Hpos]]]]]]).
   - (* AClaim *)
-    destruct Hp as [Hfree Ho].
-    split; [|split; [|split; [|split; [exact Hfresh|split; [|exact Httl]]]]].
+    destruct Hp as (Hfree & Ho & Hc0).
+    split; [|split; [|split; [|split; [exact Hfresh|split; [|split; [exact Httl|]]]]]].
     + intros m. cbn. unfold upd_name. destruct (name_eqb m n); [reflexivity|apply Hidx].
     + cbn. split; [rewrite <- Hidx; exact Hfree|exact Hok].
     + intros n0 i0 c0 [E|Hin]; [inversion E; subst; exact Ho|now apply Hown].
     + intros i0 r Hr. destruct (Hrec i0 r Hr) as [H1 H2]. split; right; assumption.
+    + intros n0 i0 c0 [E|Hin]; [inversion E; subst; exact Hc0|exact (Hpos _ _ _ Hin)].
   - (* AWrite *)
-    split; [|split; [|split; [|split; [exact Hfresh|split; [|exact Httl]]]]].
+    split; [|split; [|split; [|split; [exact Hfresh|split; [|split; [exact Httl|]]]]]].
     + intros m. cbn. apply Hidx.
     + cbn. exact Hok.
     + intros n0 i0 c0 [E|Hin]; [discriminate|now apply Hown].
     + intros i0 r0 Hr. unfold upd_n in Hr. destruct (N.eqb i0 i) eqn:E.
       * apply N.eqb_eq in E. subst i0. inversion Hr; subst r0. split; [right; exact Hp|left; reflexivity].
       * destruct (Hrec i0 r0 Hr) as [H1 H2]. split; right; assumption.
+    + intros n0 i0 c0 [E|Hin]; [discriminate|exact (Hpos _ _ _ Hin)].
   - (* AUnidx *)
     destruct Hp as [Hmine Hcl].
-    split; [|split; [|split; [|split; [exact Hfresh|split; [|exact Httl]]]]].
+    split; [|split; [|split; [|split; [exact Hfresh|split; [|split; [exact Httl|]]]]]].
     + intros m. cbn. unfold upd_name. destruct (name_eqb m n); [reflexivity|apply Hidx].
     + cbn. split; [rewrite <- Hidx; exact Hmine|split; [exact Hcl|exact Hok]].
     + intros n0 i0 c0 [E|Hin]; [discriminate|now apply Hown].
     + intros i0 r Hr. destruct (Hrec i0 r Hr) as [H1 H2]. split; right; assumption.
+    + intros n0 i0 c0 [E|Hin]; [discriminate|exact (Hpos _ _ _ Hin)].
   - (* ADelRec *)
-    split; [exact Hidx|split; [exact Hok|split; [exact Hown|split; [exact Hfresh|split; [|exact Httl]]]]].
+    split; [exact Hidx|split; [exact Hok|split; [exact Hown|split; [exact Hfresh|split; [|split; [exact Httl|exact Hpos]]]]]].
     intros i0 r Hr. unfold upd_n in Hr. destruct (N.eqb i0 i); [discriminate|]. now apply Hrec.
+Qed.
+
+(* no stored mapping carries a client id <= 0 *)
+Lemma stored_client_positive s i r : ShInv s -> recs s i = Some r -> (0 < r_client r)%Z.
+Proof.
+  intros (_ & _ & _ & _ & Hrec & _ & Hpos) Hr. destruct (Hrec _ _ Hr) as [H1 _]. exact (Hpos _ _ _ H1).
 Qed.
 
 (* one mapping id indexes at most one name, and belongs to one client *)
@@ -206,13 +222,16 @@ Definition pc_ok (s : shared) (c : client) (p : pcT) : Prop :=
   match p with
   | Idle => True
   | PCIncr _ _ _ => cexists s = true
-  | PCSetNX i n _ => own s i = Some (c, n)
+  | PCSetNX i n _ => own s i = Some (c, n) /\ (0 < c)%Z
   | PCSetRec i n _ => In (EvClaim n i c) (log s)
   | PCAppend i n => In (EvClaim n i c) (log s)
-  | PCRm _ i n st _ => In (EvClaim n i c) (log s) /\ (st = RmDelIdx -> idx s n = Some i)
+  | PCRm _ who i n st _ => In (EvClaim n i who) (log s) /\ (st = RmDelIdx -> idx s n = Some i)
   | PCDList _ => True
   | PCUSet i n _ _ _ => In (EvClaim n i c) (log s)
   | PCLRec h n i _ => n = extractDomain h /\ exists c', In (EvClaim n i c') (log s)
+  | PCClScan _ _ _ => True
+  | PCClDGet _ _ => True
+  | PCClDList _ _ _ _ => True
   | _ => False                      (* pcs of the pinned / non-atomic variants are never entered *)
   end.
 
@@ -274,9 +293,9 @@ Lemma thr_stable a s x :
 Proof.
   intros Hs Hp (Hh & Ho & Hpc) Hg.
   split; [now apply H_ok_mono|split; [now apply O_ok_mono|]].
-  unfold guards_of in Hg. destruct (pc x) as [| | | | | |k i n st e| | | | | | |]; cbn in *; try contradiction; auto.
+  unfold guards_of in Hg. destruct (pc x) as [| | | | | |k who i n st e| | | | | | | | | |]; cbn in *; try contradiction; auto.
   - now apply cexists_mono.
-  - now apply own_mono.
+  - destruct Hpc as [Hq Hc0]. split; [now apply own_mono|exact Hc0].
   - now apply log_mono.
   - now apply log_mono.
   - destruct Hpc as [Hc Hi]. split; [now apply log_mono|]. intros ->.
@@ -315,11 +334,26 @@ Section Steps.
     destruct (cloud n); [apply legacy_ok; discriminate|exact I].
   Qed.
 
-  Lemma ok_rm_end s t fs k i e :
-    H_ok s t -> O_ok s t -> ThrOk s (rm_end t fs k i e) /\ guards_of (rm_end t fs k i e) = [].
+  Lemma ok_cl_del s t fs dels cnt :
+    H_ok s t -> O_ok s t -> ThrOk s (cl_del t fs dels cnt) /\ guards_of (cl_del t fs dels cnt) = [].
   Proof.
-    intros Hh Ho. unfold rm_end. destruct k; [split; [apply ok_finish; auto; exact I|reflexivity]|].
-    destruct e; split; try reflexivity; [apply ok_finish|apply ok_goto]; auto; exact I.
+    intros Hh Ho. unfold cl_del. destruct dels; split; try reflexivity; [apply ok_finish|apply ok_goto]; auto; exact I.
+  Qed.
+
+  Lemma ok_cl_scan_next s t fs now todo acc :
+    H_ok s t -> O_ok s t -> ThrOk s (cl_scan_next t fs now todo acc) /\ guards_of (cl_scan_next t fs now todo acc) = [].
+  Proof.
+    intros Hh Ho. unfold cl_scan_next. destruct todo; [now apply ok_cl_del|].
+    split; [apply ok_goto; auto; exact I|reflexivity].
+  Qed.
+
+  Lemma ok_rm_end s t fs k who i e :
+    H_ok s t -> O_ok s t -> ThrOk s (rm_end t fs k who i e) /\ guards_of (rm_end t fs k who i e) = [].
+  Proof.
+    intros Hh Ho. unfold rm_end. destruct k as [| |rest cnt].
+    - split; [apply ok_finish; auto; exact I|reflexivity].
+    - destruct e; split; try reflexivity; [apply ok_finish|apply ok_goto]; auto; exact I.
+    - destruct e; [now apply ok_cl_del|]. split; [apply ok_goto; auto; exact I|reflexivity].
   Qed.
 
   Lemma guards_finish t fs r : guards_of (finish t fs r) = [].
@@ -347,15 +381,15 @@ Section Steps.
 
   Lemma decide_ok s t : ShInv s -> ThrOk s t -> step_ok s t (decide true true true reg cloud t s).
   Proof.
-    intros Hs (Hh & Ho & Hpc). pose proof Hs as (Hidx & Hlok & Hown & Hfresh & Hrec & Httl).
+    intros Hs (Hh & Ho & Hpc). pose proof Hs as (Hidx & Hlok & Hown & Hfresh & Hrec & Httl & Hpos).
     unfold decide. destruct (next_fault t) as [f fs].
-    destruct (pc t) as [|sub base tgt|v sub base tgt|i n tgt|i n tgt|i n|k i n st e|i n|i n|i n|i|i|i n st ex tgt|h n i now] eqn:Epc;
+    destruct (pc t) as [|sub base tgt|v sub base tgt|i n tgt|i n tgt|i n|k who i n st e|i n|i n|i n|i|i|i n st ex tgt|h n i now|now todo acc|dels cnt|c i rest cnt] eqn:Epc;
       cbn in Hpc; try contradiction.
     - (* Idle *)
       destruct (ops t) as [|o rest] eqn:Eops.
       { unfold step_ok; cbn [fst snd exec]. split; [exact I|split; [|cbn; left; reflexivity]].
         unfold ThrOk. rewrite Epc. cbn. auto. }
-      destruct o as [sub base tgt|r|k st ex tgt|h now|].
+      destruct o as [sub base tgt|r|k st ex tgt|h now|now|].
       + (* create: SetNX of the counter key *)
         destruct f; [apply step_finish; auto; exact I|].
         unfold step_ok; cbn [fst snd]. split; [exact I|].
@@ -364,8 +398,8 @@ Section Steps.
       + (* delete: Get record *)
         destruct f; [apply step_finish; auto; exact I|].
         destruct (recs s (resolve t r)) as [m|] eqn:Er; [|apply step_finish; auto; exact I].
-        destruct (negb (N.eqb (r_client m) (cl t))) eqn:Ec; [apply step_finish; auto; exact I|].
-        apply negb_false_iff, N.eqb_eq in Ec.
+        destruct (negb (Z.eqb (r_client m) (cl t))) eqn:Ec; [apply step_finish; auto; exact I|].
+        apply negb_false_iff, Z.eqb_eq in Ec.
         apply step_goto_none; [assumption|assumption| |].
         * cbn. split; [|discriminate]. destruct (Hrec _ _ Er) as [H1 _]. rewrite Ec in H1. exact H1.
         * unfold guards_of. rewrite Epc. cbn. left; reflexivity.
@@ -373,10 +407,10 @@ Section Steps.
         destruct (nth k (held t) (0, [])) as [i n] eqn:En.
         destruct f; [apply step_finish; auto; exact I|].
         destruct (recs s i) as [m|] eqn:Er; [|apply step_finish; auto; exact I].
-        destruct (negb (name_eqb (r_name m) n && N.eqb (r_client m) (cl t))) eqn:Ec; [apply step_finish; auto; exact I|].
+        destruct (negb (name_eqb (r_name m) n && Z.eqb (r_client m) (cl t))) eqn:Ec; [apply step_finish; auto; exact I|].
         destruct (N.eqb tgt 0); [apply step_finish; auto; exact I|].
         apply negb_false_iff, andb_prop in Ec. destruct Ec as [E1 E2].
-        apply name_eqb_eq in E1. apply N.eqb_eq in E2.
+        apply name_eqb_eq in E1. apply Z.eqb_eq in E2.
         apply step_goto_none; [assumption|assumption| |].
         * cbn. destruct (Hrec _ _ Er) as [H1 _]. rewrite E1, E2 in H1. exact H1.
         * unfold guards_of. rewrite Epc. cbn. left; reflexivity.
@@ -386,20 +420,27 @@ Section Steps.
         apply step_goto_none; [assumption|assumption| |].
         * cbn. split; [reflexivity|]. rewrite Hidx in Ei. exact (holder_in _ _ _ Ei).
         * unfold guards_of. rewrite Epc. cbn. left; reflexivity.
+      + (* cleanup: GetList of the global list *)
+        destruct f; [apply step_finish; auto; exact I|].
+        destruct (ok_cl_scan_next s t fs now (glist s) [] Hh Ho) as [H1 H2].
+        unfold step_ok; cbn [fst snd exec]. split; [exact I|split; [exact H1|cbn; right; exact H2]].
       + (* the clock passes the counter's deadline: it has none *)
         unfold step_ok; cbn [fst snd]. split; [exact I|split; [|cbn [guard_rel]; right; reflexivity]].
         apply ok_finish; auto using H_ok_mono, O_ok_mono; try exact I.
     - (* Incr *)
       unfold incr_step. destruct f; [apply step_finish; auto; exact I|].
       unfold step_ok; cbn [fst snd]. split; [exact Hpc|]. unfold after_incr.
-      destruct (valid_create (cl t) sub tgt).
+      destruct (valid_create (cl t) sub tgt) eqn:Ev.
       * split; [|cbn; unfold guards_of; rewrite Epc; cbn; left; reflexivity].
-        apply ok_goto; auto using H_ok_mono, O_ok_mono. cbn. apply upd_n_same.
+        apply ok_goto; auto using H_ok_mono, O_ok_mono. cbn. split; [apply upd_n_same|].
+        unfold valid_create in Ev. apply andb_prop in Ev. destruct Ev as [Ev _]. apply andb_prop in Ev. destruct Ev as [Ev _].
+        now apply Z.ltb_lt in Ev.
       * split; [|cbn; right; reflexivity]. apply ok_finish; auto using H_ok_mono, O_ok_mono; try exact I.
     - (* SetNX on the index *)
       destruct f; [apply step_finish; auto; exact I|].
       destruct (idx s n) as [j|] eqn:Ei; [apply step_finish; auto; exact I|].
-      unfold step_ok; cbn [fst snd]. split; [split; assumption|].
+      destruct Hpc as [Hq Hc0].
+      unfold step_ok; cbn [fst snd]. split; [split; [exact Ei|split; assumption]|].
       split; [|cbn; unfold guards_of; rewrite Epc; cbn; left; reflexivity].
       apply ok_goto; auto using H_ok_mono, O_ok_mono. cbn. now left.
     - (* Set record *)
@@ -421,8 +462,8 @@ Section Steps.
       destruct Hpc as [Hc Hi].
       destruct st.
       + (* SetNX guard *)
-        assert (Hend : forall err, step_ok s t (rm_end t fs k i err, ANone)).
-        { intros err. destruct (ok_rm_end s t fs k i err Hh Ho) as [H1 H2].
+        assert (Hend : forall err, step_ok s t (rm_end t fs k who i err, ANone)).
+        { intros err. destruct (ok_rm_end s t fs k who i err Hh Ho) as [H1 H2].
           unfold step_ok; cbn [fst snd exec]. split; [exact I|split; [exact H1|cbn; right; exact H2]]. }
         destruct f; [apply Hend|]. destruct (rguard s i) eqn:Eg; [apply Hend|].
         unfold step_ok; cbn [fst snd]. split; [exact I|split].
@@ -456,15 +497,14 @@ Section Steps.
         * cbn. unfold guards_of. rewrite Epc. cbn. left; reflexivity.
       + (* release the guard *)
         destruct f.
-        * destruct (ok_rm_end s t fs k i e Hh Ho) as [H1 H2].
+        * destruct (ok_rm_end s t fs k who i e Hh Ho) as [H1 H2].
           unfold step_ok; cbn [fst snd exec]. split; [exact I|split; [exact H1|cbn; right; exact H2]].
-        * destruct (ok_rm_end (exec (ADrop i) s) t fs k i e) as [H1 H2]; auto using H_ok_mono, O_ok_mono.
+        * destruct (ok_rm_end (exec (ADrop i) s) t fs k who i e) as [H1 H2]; auto using H_ok_mono, O_ok_mono.
           unfold step_ok; cbn [fst snd]. split; [exact I|split; [exact H1|]].
           cbn. unfold guards_of at 1. rewrite Epc. cbn. auto.
-    - (* Remove from the client list *)
-      destruct f; [apply step_finish; auto; exact I|].
-      unfold step_ok; cbn [fst snd]. split; [exact I|split; [|cbn; right; reflexivity]].
-      apply ok_finish; auto using H_ok_mono, O_ok_mono; try exact I.
+    - (* Remove from the client list (and, ungated, from the global list) *)
+      destruct f; (unfold step_ok; cbn [fst snd]; split; [exact I|split; [|cbn; right; reflexivity]];
+                   apply ok_finish; auto using H_ok_mono, O_ok_mono; try exact I).
     - (* update: Set record *)
       destruct f; [apply step_finish; auto; exact I|].
       unfold step_ok; cbn [fst snd]. split; [exact Hpc|split; [|cbn; right; reflexivity]].
@@ -478,6 +518,36 @@ Section Steps.
       destruct (Hrec _ _ Er) as [H1 H2].
       destruct (claim_functional s _ _ _ _ _ Hs H1 Hc') as [E1 _].
       rewrite <- En, <- E1. split; assumption.
+    - (* cleanup: GetMapping of the next listed id *)
+      destruct todo as [|i rest].
+      { destruct (ok_cl_del s t fs (rev acc) 0 Hh Ho) as [H1 H2].
+        unfold step_ok; cbn [fst snd exec]. split; [exact I|split; [exact H1|cbn; right; exact H2]]. }
+      destruct f.
+      { destruct (ok_cl_scan_next s t fs now rest acc Hh Ho) as [H1 H2].
+        unfold step_ok; cbn [fst snd exec]. split; [exact I|split; [exact H1|cbn; right; exact H2]]. }
+      destruct (recs s i) as [m|].
+      + destruct (ok_cl_scan_next s t fs now rest (if is_expired m now then (i, r_client m) :: acc else acc) Hh Ho) as [H1 H2].
+        unfold step_ok; cbn [fst snd exec]. split; [exact I|split; [exact H1|cbn; right; exact H2]].
+      + destruct (ok_cl_scan_next (exec (AGRemove i) s) t fs now rest acc) as [H1 H2]; auto using H_ok_mono, O_ok_mono.
+        unfold step_ok; cbn [fst snd]. split; [exact I|split; [exact H1|cbn [guard_rel]; right; exact H2]].
+    - (* cleanup: DeleteMapping(id, snapshot's client): Get record *)
+      destruct dels as [|[i c] rest]; [apply step_finish; auto; exact I|].
+      assert (Hskip : forall n, step_ok s t (cl_del t fs rest n, ANone)).
+      { intros n. destruct (ok_cl_del s t fs rest n Hh Ho) as [H1 H2].
+        unfold step_ok; cbn [fst snd exec]. split; [exact I|split; [exact H1|cbn; right; exact H2]]. }
+      destruct f; [apply Hskip|].
+      destruct (recs s i) as [m|] eqn:Er; [|apply Hskip].
+      destruct (negb (Z.eqb (r_client m) c)) eqn:Ec; [apply Hskip|].
+      apply negb_false_iff, Z.eqb_eq in Ec.
+      apply step_goto_none; [assumption|assumption| |].
+      * cbn. split; [|discriminate]. destruct (Hrec _ _ Er) as [H1 _]. rewrite Ec in H1. exact H1.
+      * unfold guards_of. rewrite Epc. cbn. left; reflexivity.
+    - (* cleanup: Remove from the owner's list (and the global list) *)
+      destruct f.
+      + destruct (ok_cl_del (exec (AGRemove i) s) t fs rest (cnt + 1)) as [H1 H2]; auto using H_ok_mono, O_ok_mono.
+        unfold step_ok; cbn [fst snd]. split; [exact I|split; [exact H1|cbn [guard_rel]; right; exact H2]].
+      + destruct (ok_cl_del (exec (ARemove c i) s) t fs rest (cnt + 1)) as [H1 H2]; auto using H_ok_mono, O_ok_mono.
+        unfold step_ok; cbn [fst snd]. split; [exact I|split; [exact H1|cbn [guard_rel]; right; exact H2]].
   Qed.
 End Steps.
 
@@ -576,7 +646,7 @@ Section Sys.
 
   Lemma shinv_empty : ShInv empty_store.
   Proof.
-    unfold ShInv, empty_store; cbn. split; [reflexivity|split; [exact I|split; [intros n i c []|split; [reflexivity|split; [discriminate|reflexivity]]]]].
+    unfold ShInv, empty_store; cbn. split; [reflexivity|split; [exact I|split; [intros n i c []|split; [reflexivity|split; [discriminate|split; [reflexivity|intros n i c []]]]]]].
   Qed.
 
   Lemma ginv_init ts : (forall t, In t ts -> fresh_thr t) -> GInv (empty_store, ts).
@@ -738,7 +808,7 @@ Section Consequences.
     dstep true true true reg cloud t s = (finish t fs (RErr EForbidden), s).
   Proof.
     intros Hp Ho Hf Hr Hc. unfold dstep, decide. rewrite Hf, Hp, Ho, Hr.
-    apply N.eqb_neq in Hc. rewrite Hc. reflexivity.
+    apply Z.eqb_neq in Hc. rewrite Hc. reflexivity.
   Qed.
 
   (* second read of a lookup: an inactive or expired record is an error, not a fall-through to the other sources *)
@@ -750,6 +820,43 @@ Section Consequences.
     intros Hp Hf Hr Ha. unfold dstep, decide. rewrite Hf, Hp, Hr, Ha. destruct (is_expired m now); reflexivity.
   Qed.
 
+  (* DeleteMapping called with a client id that is not a real client (0 = connection not bound to a client, or negative):
+     refused on every stored mapping, the store is untouched — no stored mapping carries such an id *)
+  Lemma unbound_delete_refused t s r rest m fs :
+    ShInv s -> pc t = Idle -> ops t = ODelete r :: rest -> next_fault t = (false, fs) ->
+    recs s (resolve t r) = Some m -> (cl t <= 0)%Z ->
+    dstep true true true reg cloud t s = (finish t fs (RErr EForbidden), s).
+  Proof.
+    intros Hs Hp Ho Hf Hr Hc. apply (foreign_delete_refused t s r rest m fs Hp Ho Hf Hr).
+    pose proof (stored_client_positive s _ _ Hs Hr). lia.
+  Qed.
+
+  (* CreateMapping by such an id draws an id and is then refused by validation: nothing is claimed or stored *)
+  Lemma unbound_create_refused t s sub base tgt fs :
+    pc t = PCIncr sub base tgt -> next_fault t = (false, fs) -> (cl t <= 0)%Z ->
+    dstep true true true reg cloud t s =
+      (finish t fs (RErr EValidation), exec (AIncr (cl t) (full_domain sub base)) s).
+  Proof.
+    intros Hp Hf Hc. unfold dstep, decide. rewrite Hf, Hp. unfold incr_step, after_incr, valid_create.
+    replace (Z.ltb 0 (cl t)) with false by (symmetry; apply Z.ltb_ge; exact Hc). reflexivity.
+  Qed.
+
+  (* the expiry cleanup only ever selects mappings it has read as expired; the others are left alone *)
+  Lemma cleanup_skips_unexpired t s now i rest acc m fs :
+    pc t = PCClScan now (i :: rest) acc -> next_fault t = (false, fs) -> recs s i = Some m -> is_expired m now = false ->
+    dstep true true true reg cloud t s = (cl_scan_next t fs now rest acc, s).
+  Proof.
+    intros Hp Hf Hr He. unfold dstep, decide. rewrite Hf, Hp, Hr, He. reflexivity.
+  Qed.
+
+  (* ... and it deletes with the mapping's own client id: a record whose owner changed in between is skipped *)
+  Lemma cleanup_acts_as_owner t s i c rest cnt m fs :
+    pc t = PCClDGet ((i, c) :: rest) cnt -> next_fault t = (false, fs) -> recs s i = Some m -> r_client m <> c ->
+    dstep true true true reg cloud t s = (cl_del t fs rest cnt, s).
+  Proof.
+    intros Hp Hf Hr Hc. unfold dstep, decide. rewrite Hf, Hp, Hr. apply Z.eqb_neq in Hc. rewrite Hc. reflexivity.
+  Qed.
+
   Section Reach.
     Variables (ts : list thr) (sched : list nat).
     Hypothesis Hfresh : forall t, In t ts -> fresh_thr t.
@@ -759,7 +866,25 @@ Section Consequences.
     Proof. exact (proj1 (ginv_all_schedules reg cloud ts sched Hfresh)). Qed.
 
     Lemma reach_counter_no_deadline : cttl (fst s) = false.
-    Proof. destruct reach_shinv as (_ & _ & _ & _ & _ & H). exact H. Qed.
+    Proof. destruct reach_shinv as (_ & _ & _ & _ & _ & H & _). exact H. Qed.
+
+    Lemma reach_real_clients_only :
+      (forall n i c, In (EvClaim n i c) (log (fst s)) -> (0 < c)%Z) /\
+      (forall n i c, In (EvRelease n i c) (log (fst s)) -> (0 < c)%Z) /\
+      (forall i r, recs (fst s) i = Some r -> (0 < r_client r)%Z).
+    Proof.
+      pose proof reach_shinv as Hs. pose proof Hs as (_ & Hok & _ & _ & _ & _ & Hpos).
+      split; [exact Hpos|split].
+      - intros n i c Hin. apply in_split in Hin. destruct Hin as (l1 & l2 & E). rewrite E in Hok.
+        destruct (log_ok_release _ _ _ _ _ Hok) as [_ Hc]. apply (Hpos n i c). rewrite E. apply in_or_app. right. now right.
+      - intros i r. apply stored_client_positive. exact Hs.
+    Qed.
+
+    Lemma reach_unbound_delete_refused t r rest m fs :
+      pc t = Idle -> ops t = ODelete r :: rest -> next_fault t = (false, fs) ->
+      recs (fst s) (resolve t r) = Some m -> (cl t <= 0)%Z ->
+      dstep true true true reg cloud t (fst s) = (finish t fs (RErr EForbidden), fst s).
+    Proof. apply unbound_delete_refused. exact reach_shinv. Qed.
 
     Lemma single_owner :
       (forall n, idx (fst s) n = holder n (log (fst s))) /\
